@@ -160,11 +160,12 @@ func formatSpaces(lines []formatLine) {
 
 // separateLegacyIndexChain keeps a space between two consecutive legacy
 // index steps, as in foo.0 .1, since removing it would produce foo.0.1 where
-// "0.1" is a single number token rather than two separate index steps.
+// "0.1" is a single number token rather than two separate index steps. The
+// first step's dot need not directly precede its number (a comment can sit
+// between them), so only the digits-dot-number sequence itself is examined.
 func separateLegacyIndexChain(toks Tokens) {
-	for i := 1; i+2 < len(toks); i++ {
-		if toks[i-1].Type == hclsyntax.TokenDot &&
-			toks[i].Type == hclsyntax.TokenNumberLit && isDecimalDigits(toks[i].Bytes) &&
+	for i := 0; i+2 < len(toks); i++ {
+		if toks[i].Type == hclsyntax.TokenNumberLit && isDecimalDigits(toks[i].Bytes) &&
 			toks[i+1].Type == hclsyntax.TokenDot &&
 			toks[i+2].Type == hclsyntax.TokenNumberLit {
 			toks[i+1].SpacesBefore = 1
